@@ -408,6 +408,10 @@ func (c *Call) typeKey() string {
 	if c.S == nil {
 		return "scalar:" + c.V.Carrier + ":" + c.V.T.K
 	}
+	if c.S.Many != nil {
+		b, _ := jsonMarshal(c.S.Many)
+		return "many:" + string(b)
+	}
 	r := c.S.Root
 	for r.K != "struct" && r.K != "named" && r.Elem != nil {
 		r = *r.Elem
